@@ -286,6 +286,9 @@ func (sm *Str2Str) LoadFromMap(m map[string]string) error {
 
 // Get ...
 func (sm *Str2Str) Get(k string) (string, bool) {
+	if sm.strMap == nil { // zero value, nothing loaded yet
+		return "", false
+	}
 	if idx, ok := sm.strMap.Get(k); ok {
 		v := sm.strStore.Get(idx)
 		// TODO: any check?
@@ -296,5 +299,8 @@ func (sm *Str2Str) Get(k string) (string, bool) {
 
 // Len returns the size of map
 func (sm *Str2Str) Len() int {
+	if sm.strMap == nil { // zero value, nothing loaded yet
+		return 0
+	}
 	return sm.strMap.Len()
 }
